@@ -193,6 +193,7 @@ def run(tier):
                       "checkPathLenConstraint(...) >= 0")
     rule_R5(res, prog)
     rule_R6(res, prog)
+    rule_R7(res, prog)
     return res.finish()
 
 
@@ -486,3 +487,79 @@ def rule_R6(res, prog):
                          file=fa.relfile, line=ln)
         res.instance(rid, "psX509AuthenticateCert:%s authStatus = PASS dominated by the date-flag test" % ln, ok, finding=f_)
     res.floor(rid, 5)
+
+
+def rule_R7(res, prog):
+    """keyCertSign when keyUsage is present (RFC 5280 4.2.1.3): in psX509AuthenticateCert the test of the issuer's
+    keyUsageFlags that gates the failing verdict masks exactly KEY_USAGE_KEY_CERT_SIGN (no other usage bit can stand in
+    for it), its `bit clear` outcome writes a failing verdict unless the grandfathering test (keyUsageFlags == 0 and
+    issuedBefore) allows it, and authStatus = PASS is not reachable from the loop head without passing that test."""
+    from sa import cfgutil as cu
+    from sa.pp import pp
+    rid = "C03.R7"
+    res.rule(rid, "the issuer keyUsage test masks exactly keyCertSign and is on every path to authStatus = PASS")
+    KCS = prog.const("KEY_USAGE_KEY_CERT_SIGN")
+    PASS = prog.const("PS_CERT_AUTH_PASS")
+    fa = prog.fn("psX509AuthenticateCert")
+    tests = []
+    for b in fa.blocks:
+        t = b.get("term")
+        if t is None or "c" not in t:
+            continue
+        for n in walk(t["c"]):
+            if n.get("k") == "bin" and n["op"] == "&" and (strip(n["l"]) or {}).get("f") == "keyUsageFlags":
+                tests.append((b, t, n))
+    if not tests:
+        raise AnalysisBroken("C03.R7: no test of keyUsageFlags in psX509AuthenticateCert")
+    for (b, t, n) in tests:
+        r = strip(n["r"])
+        ok = r is not None and r.get("k") == "int" and r["v"] == KCS
+        f_ = None
+        if not ok:
+            f_ = Finding(PROP, rid, fa.name, "keyUsage mask is not exactly keyCertSign",
+                         "%s:%s psX509AuthenticateCert(): the issuer's keyUsage is tested with the mask `%s` (keyCertSign is %d): an issuer "
+                         "whose keyUsage lacks keyCertSign but has another bit of the mask is accepted as a certificate signer" % (
+                             fa.relfile, t["ln"], pp(r)[:40], KCS), file=fa.relfile, line=t["ln"])
+        res.instance(rid, "psX509AuthenticateCert:%s keyUsageFlags & %s" % (t["ln"], pp(r)[:30]), ok, finding=f_)
+    # must-pass to the PASS store
+    dom = cu.dominators(fa)
+    heads = set()
+    for b in fa.blocks:
+        for sc in b["succ"]:
+            s_ = sc.get("b")
+            if s_ is not None and s_ in dom.get(b["id"], set()):
+                heads.add(s_)
+    ids = set(id(n) for (_, _, n) in tests)
+
+    def is_pass(x):
+        return any(id(m) in ids for m in walk(x))
+
+    def is_store(x):
+        return any(m.get("k") == "bin" and m["op"] == "=" and (strip(m["l"]) or {}).get("f") == "authStatus" and
+                   (strip(m["r"]) or {}).get("k") == "int" and strip(m["r"])["v"] == PASS for m in walk(x))
+    # paths that authenticate a certificate against itself / the trusted copy (no issuer involved) are found by their
+    # start: only searches from loop heads that dominate the keyUsage test are meaningful
+    tb = tests[0][0]
+    starts = [h for h in heads if h in dom[tb["id"]]] or [fa.entry]
+    # self-signed / same-certificate arms legitimately skip the issuer tests: they are the arms that jump over the
+    # keyUsage test by a goto to a label; exempt edges into blocks that are not dominated by the issuer-is-other test
+    def same_cert_edge(b, k):
+        """true outcome of the digest comparison that establishes `sc is a copy of the trusted certificate ic` (C03.R1's
+        second alternative): no issuer is involved on that arm"""
+        t = b.get("term")
+        return k == 0 and t is not None and "c" in t and any(
+            m.get("k") == "call" and m.get("fn") in ("memcmpct", "memcmp") and
+            any(q.get("k") == "mem" and q.get("f") == "sigHash" for a_ in m.get("a", []) for q in walk(a_)) for m in walk(t["c"]))
+    esc = None
+    for st in starts:
+        e_ = cu.escapes(fa, (st, None), is_pass, exempt_edge=same_cert_edge, target_expr=is_store)
+        if e_ is not None:
+            esc = e_
+    f_ = None
+    if esc is not None:
+        f_ = Finding(PROP, rid, fa.name, "PASS without the keyUsage test",
+                     "%s:%s psX509AuthenticateCert(): authStatus = PS_CERT_AUTH_PASS is reachable from the per-certificate loop head "
+                     "without the issuer keyUsage test (via lines %s)" % (fa.relfile, esc[-1][1], [p_[1] for p_ in esc[-6:]]),
+                     file=fa.relfile, line=esc[-1][1])
+    res.instance(rid, "psX509AuthenticateCert: authStatus = PASS passes the issuer keyUsage test on every path from the loop head", esc is None, finding=f_)
+    res.floor(rid, 2)
